@@ -16,7 +16,7 @@ directory = "$CACHE/vendor"
 offline = true
 EOT
 HASH=$( (cd $REPO && find programs type-crate id-crate Cargo.toml Cargo.lock -type f \( -name '*.rs' -o -name 'Cargo.toml' -o -name 'Cargo.lock' \) -print0 | sort -z | xargs -0 sha256sum) | sha256sum | cut -d' ' -f1)
-if [ -f "$OUT/HASH" ] && [ "$(cat $OUT/HASH)" = "$HASH" ] && [ -s "$OUT/marginfi.mir" ] && [ -s "$OUT/typecrate.mir" ] && [ -s "$OUT/drift.mir" ]; then
+if [ -f "$OUT/HASH" ] && [ "$(cat $OUT/HASH)" = "$HASH" ] && [ -s "$OUT/marginfi.mir" ] && [ -s "$OUT/typecrate.mir" ] && [ -s "$OUT/drift.mir" ] && [ -s "$OUT/pyth.mir" ]; then
   echo "mirdump: up to date ($HASH)"; exit 0
 fi
 rm -f "$OUT/HASH"
@@ -24,7 +24,7 @@ export CARGO_TARGET_DIR=$CACHE/mir-target CARGO_NET_OFFLINE=true
 FLAGS="-Zunpretty=mir -C debug-assertions=off -C overflow-checks=on"
 t0=$(date +%s)
 # force re-emission: cargo would skip rustc (and so the MIR output) for crates whose fingerprint is fresh
-rm -rf $CARGO_TARGET_DIR/debug/.fingerprint/{marginfi,marginfi-type-crate,kamino-mocks,solend-mocks,drift-mocks}-* 2>/dev/null
+rm -rf $CARGO_TARGET_DIR/debug/.fingerprint/{marginfi,marginfi-type-crate,kamino-mocks,solend-mocks,drift-mocks,pyth-solana-receiver-sdk}-* 2>/dev/null
 dump() { # crate-name outfile extra-cargo-args
   local pkg=$1 out=$2; shift 2
   ( cd $REPO/programs/marginfi && cargo +nightly --config $CFG rustc --offline --locked -p $pkg --lib "$@" -- $FLAGS -o "$OUT/$out.tmp" ) > "$OUT/$out.log" 2>&1
@@ -35,13 +35,14 @@ dump() { # crate-name outfile extra-cargo-args
 # the dependency crates first (so marginfi's own dump finds them built), in parallel where independent
 dump marginfi-type-crate typecrate.mir || exit 2
 ( dump kamino-mocks kamino.mir ) & ( dump solend-mocks solend.mir ) & wait
-# drift-mocks does not build when selected alone (bytemuck derive feature comes through unification):
-# its MIR is emitted by a rustc wrapper during the marginfi build, with cargo's exact command line
-export MIRSYM_DRIFT_OUT="$OUT/drift.mir" RUSTC_WRAPPER=/verif/tools/rustc_wrap.sh
-rm -f "$OUT/drift.mir"
+# drift-mocks does not build when selected alone (bytemuck derive feature comes through unification), and the Pyth
+# receiver SDK is a registry dependency: their MIR is emitted by a rustc wrapper during the marginfi build, with cargo's exact command line
+export MIRSYM_EXTRA="drift_mocks=$OUT/drift.mir pyth_solana_receiver_sdk=$OUT/pyth.mir" RUSTC_WRAPPER=/verif/tools/rustc_wrap.sh
+rm -f "$OUT/drift.mir" "$OUT/pyth.mir"
 dump marginfi marginfi.mir --features no-entrypoint || exit 2
 unset RUSTC_WRAPPER
 [ -s "$OUT/drift.mir" ] || { echo "mirdump: FAILED for drift-mocks (wrapper produced nothing)"; exit 2; }
+[ -s "$OUT/pyth.mir" ] || { echo "mirdump: FAILED for pyth-solana-receiver-sdk (wrapper produced nothing)"; exit 2; }
 echo "$HASH" > "$OUT/HASH"
 echo "mirdump: done in $(( $(date +%s) - t0 )) s"
 ls -la "$OUT"/*.mir
